@@ -81,7 +81,7 @@ class TrendJacobian(Contract):
     cover_raise = True
 
     def configs(self, tier):
-        degs = range(0, 7) if tier == "thorough" else (0, 1, 2, 3)
+        degs = range(0, 7)
         out = [{"degree": d, "rank": 1} for d in degs] + [{"degree": 2, "rank": 2}, {"degree": 1, "rank": 1, "mismatch": True}]
         return out
 
@@ -135,7 +135,7 @@ class TrendPredict(Contract):
     cover_raise = True
 
     def configs(self, tier):
-        degs = range(0, 7) if tier == "thorough" else (0, 1, 2, 3)
+        degs = range(0, 7)
         return [{"degree": d, "rank": 1} for d in degs] + [{"degree": 2, "rank": 2}, {"degree": 1, "rank": 1, "extra": 1}, {"degree": 1, "rank": 1, "fitted": False}]
 
     def setup(self, B, cfg):
